@@ -251,7 +251,7 @@ ADDENDA = {
     "C25": " Also: TimeSpan::union decided path by path (start = min of starts, end = max of ends, justified by the path's comparisons); the calibrated index map and span merge of BasicBlock::as_schedule. Also: the set of scheduled instruction kinds is read from the MIR of DefaultHandler::is_scheduled whatever its shape, and compared kind by kind with the duration table. Also: the start time is the maximum (fold from zero keeping the larger value) of the timed predecessors' end times; Schedule::duration is raised to an item's end time exactly when that end time is later.",
     "C26": " Also: each side of FrameSet::filter is evaluated whenever its condition is present (no Some-discarding adaptor, unconditional evaluation). Also: And / Or evaluate every operand (no take_while / skip / find ... between the operand results and the combination).",
     "C27": " Also: the CALL table: for (return slot | loop) x (MemoryReference | Identifier) x (reads | writes) the insertion happens under exactly the expected controlling conditions (writes of loop arguments only additionally under `mutable`). Also: a helper reports a region that is certainly present (a &MemoryReference parameter) the same way on every path; memory references are listed from the expression as written (no simplification or substitution first).",
-    "C30": " Also: every declaration lookup in the type checker (18 sites) reports UndefinedMemoryReference when the region is not declared; a number literal is rejected exactly when |imaginary part| is non-zero (sign-symmetric test, error on the non-zero side).",
+    "C30": " Also: every declaration lookup in the type checker (18 sites) reports UndefinedMemoryReference when the region is not declared; a number literal is rejected exactly when |imaginary part| is non-zero (sign-symmetric test, error on the non-zero side). A memory reference is accepted exactly when its region's type equals REAL (polarity of the comparison).",
     "C31": " Also: a MemoryReference or Immediate argument is accepted for ExternParameterType::Scalar only (decision read from the match in the arm or from the Option/Result helper called on data_type). Also: the argument-count comparison uses the plain argument count (no lossy arithmetic) against parameters plus the return slot; a mutable parameter is printed with `mut` on every path, whatever its type. A Mismatched* error is raised exactly on the side where the declared type or size differs from the expected one.",
     "C33": " Also: MOVE, SUB and JUMP-WHEN address the same memory cell (the caller's reference) and the declared length covers its index (repaired); the early returns are decided on the MIR paths; add_instruction stores a DECLARE by an unconditional insert, so the generated declaration replaces an existing one.",
     "C35": " Also: simplify never reads the unexpanded body; CALL names are collected in the loop over the expanded body; the three pruning steps (frames, waveforms, extern pragmas) run on every path. A waveform / extern pragma is kept exactly when its name is in the used set (positive membership; an absent extern name keeps nothing).",
